@@ -27,6 +27,9 @@ func messages() []string {
 	// multiparts
 	out = append(out, "From: a@b\r\nTo: c@d\r\nSubject: mp \"q\"\r\nMIME-Version: 1.0\r\nContent-Type: multipart/mixed; boundary=\"XX\"\r\n\r\n--XX\r\nContent-Type: text/plain; charset=\"utf-8\"; name=\"we\\\"ird (name).txt\"\r\n\r\npart one {5}\r\n--XX\r\nContent-Type: application/octet-stream; name=\"a)b.bin\"\r\nContent-Disposition: attachment; filename=\"a)b.bin\"\r\nContent-Transfer-Encoding: base64\r\n\r\nQUJD\r\n--XX--\r\n")
 	out = append(out, "From: a@b\r\nTo: c@d\r\nSubject: nested\r\nMIME-Version: 1.0\r\nContent-Type: multipart/mixed; boundary=o\r\n\r\n--o\r\nContent-Type: multipart/alternative; boundary=i\r\n\r\n--i\r\nContent-Type: text/plain\r\n\r\nt\r\n--i\r\nContent-Type: text/html\r\n\r\n<p>\"h\"</p>\r\n--i--\r\n--o\r\nContent-Type: text/plain\r\nContent-ID: <id(1)@x>\r\nContent-Description: de\"sc\r\n\r\nlast\r\n--o--\r\n")
+	// line feeds that are content (not line endings) in a CRLF message, in a body and in a multipart leaf: a literal counts them once
+	out = append(out, "From: a@b\r\nTo: c@d\r\nSubject: bare lf\r\n\r\nfirst line\r\nlone\nline feed\n\nand more\r\nlast\r\n")
+	out = append(out, "From: a@b\r\nTo: c@d\r\nSubject: bare lf in part\r\nMIME-Version: 1.0\r\nContent-Type: multipart/mixed; boundary=lf\r\n\r\n--lf\r\nContent-Type: text/plain\r\nContent-Transfer-Encoding: binary\r\n\r\nleaf with\nlone\nline feeds\r\n--lf\r\nContent-Type: text/plain\r\n\r\nsecond\r\n--lf--\r\n")
 	return out
 }
 
